@@ -134,7 +134,9 @@ impl PoolAllocator {
             buckets: unsafe {
                 UniqueIndexSet::new_uninit(Self::calc_number_of_buckets(bucket_layout, ptr, size))
             },
-            bucket_size: bucket_layout.size(),
+            // every bucket must start at a multiple of the bucket alignment, therefore the
+            // size is rounded up to the stride that is also used to count the buckets
+            bucket_size: align(bucket_layout.size(), bucket_layout.align()),
             bucket_alignment: bucket_layout.align(),
             start: SyncPointer::new(unsafe {
                 ptr.as_ptr().add(adjusted_start - ptr.as_ptr() as usize)
@@ -358,7 +360,7 @@ impl<const MAX_NUMBER_OF_BUCKETS: usize> FixedSizePoolAllocator<MAX_NUMBER_OF_BU
                         MAX_NUMBER_OF_BUCKETS,
                     ))
                 },
-                bucket_size: bucket_layout.size(),
+                bucket_size,
                 bucket_alignment: bucket_layout.align(),
                 start: SyncPointer::new(unsafe {
                     ptr.as_ptr().add(adjusted_start - ptr.as_ptr() as usize)
